@@ -50,7 +50,10 @@ StartVec ==
     ("oral3" :> Vec("FO",   "FO", 2, 0, TRUE,  "oral")) @@   \* pheno_advan12.mod
     ("zo1"   :> Vec("ZO",   "FO", 0, 0, FALSE, "oral")) @@   \* pheno_advan1_zero_order.mod
     ("seq1"  :> Vec("SEQ",  "FO", 0, 0, TRUE,  "oral")) @@   \* pheno_advan2_seq.mod
-    ("tr2"   :> Vec("FO",   "FO", 1, 2, TRUE,  "oral"))      \* pheno_2transits.mod
+    ("tr2"   :> Vec("FO",   "FO", 1, 2, TRUE,  "oral")) @@   \* pheno_2transits.mod
+    \* mox2 + P:1, L:1, E:MIX + derived statements that READ structural symbols (THALFA = 0.693/KA, K21D = Q/V3 before
+    \* the ODEs; CLTOT = CL + CLMM, TLAG = ALAG1 after them): every undoing request meets a still-read symbol
+    ("der1"  :> [Vec("FO", "MIX", 1, 0, TRUE, "oral") EXCEPT !.lag = TRUE])
 
 \* ---------------------------------------------------------------- actions
 A(k, v, n, keep) == [k |-> k, v |-> v, n |-> n, keep |-> keep]
